@@ -151,7 +151,7 @@ def bodyProbeC (goC : GoC) (srvId : Nat) (key : Nat) (s : St) : (St × Ret) × C
       if pv.id == srvId then ((s, .ok), []) else
       let s := s.modServer pv.id fun v => { v with probePending := true }
       let p := goC (.sendNolock (some pv.id) true true
-        { name := q.name, qtype := q.qtype, qclass := q.qclass, rd := q.rd, edns := q.edns } .probe []) s
+        { name := q.name, qtype := q.qtype, qclass := q.qclass, rd := q.rd, edns := q.edns } (.probe pv.id) []) s
       ((p.1.1, .ok), p.2)
 
 def bodyFlushC (goC : GoC) (fd : Nat) (s : St) : (St × Ret) × CLog :=
@@ -239,7 +239,7 @@ def bodyEndQueryC (goC : GoC) (srv : Option Nat) (key : Nat) (st : Status) (rec 
 def bodyCallbackC (goC : GoC) (owner : Owner) (react : List Nat) (st : Status) (timeouts : Nat) (rec : Option Reply)
     (s : St) : (St × Ret) × CLog :=
   match owner with
-  | .probe => ((s, .ok), [])
+  | .probe id => ((s.modServer id fun v => { v with probePending := false }, .ok), [])
   | .client id =>
     match s.client? id with
     | none => ((s.mfault s!"uaf-client({id}) in completion callback", .other), [])
